@@ -46,3 +46,9 @@ Theorem C07_last_committer_wins : forall root data enc menc s0 s s' i p n loc k 
   s' loc = Some (NLink (blob root k)).
 Proof. exact commit_installs. Qed.
 Print Assumptions C07_last_committer_wins.
+
+(* The hypotheses of C07_writers_never_fail are jointly satisfiable by a system that commits a location. *)
+Theorem C07_nonvacuous : exists root data enc menc s0,
+  init_ok root data enc menc s0 /\ writers_ok root data s0 /\ exists loc, commits s0 loc.
+Proof. exact (ex_intro _ _ (ex_intro _ _ (ex_intro _ _ (ex_intro _ _ (ex_intro _ _ example_writers_ok))))). Qed.
+Print Assumptions C07_nonvacuous.
